@@ -30,8 +30,9 @@ struct Inner { char kind; int arg; };  // 't' thenI ctx | 'd' destroyCtx c | 'x'
 
 // Conv: finish through the converting overload finish(U&&) with U != T (int -> Val, unique_ptr<DVal> -> unique_ptr<Val>)
 template<typename T, bool Conv = false> struct Env {
-    std::vector<QXmppPromise<T>> promises;
-    std::vector<QXmppTask<T>> tasks;
+    // every handle lives in its own heap object: dropping one really frees its memory (a use of a destroyed handle is a sanitizer report)
+    std::vector<std::unique_ptr<QXmppPromise<T>>> promises;
+    std::vector<std::unique_ptr<QXmppTask<T>>> tasks;
     std::map<int, QObject *> ctx;
     std::set<int> destroyed;
     std::map<int, int> ctxOfK;      // continuation id -> context id passed (0 = nullptr)
@@ -59,7 +60,7 @@ template<typename T, bool Conv = false> struct Env {
         auto it = ctx.find(c);
         if (it != ctx.end()) { delete it->second; ctx.erase(it); }
     }
-    QXmppTask<T> aTask() { return tasks.empty() ? promises.front().task() : tasks.front(); }
+    QXmppTask<T> aTask() { return tasks.empty() ? promises.front()->task() : *tasks.front(); }
 
     void oracleRan(int k, int eff, const std::string &val, bool reentrant) {
         ranCount[k]++;
@@ -117,16 +118,21 @@ template<typename T, bool Conv = false> struct Env {
             int c; std::string b; is >> c >> b;
             std::vector<Inner> body;
             if (b != "-") { std::istringstream bs(b); std::string item; while (std::getline(bs, item, ',')) body.push_back({item[0], item.size() > 1 ? atoi(item.c_str() + 1) : 0}); }
-            if (refs() > 0) attach(c, body, false);
+            if (refs() > 0) {
+                const long closuresBefore = liveClosures; const bool wasFinished = finished;
+                attach(c, body, false);
+                // released: a then() on a finished task runs its continuation or drops it — either way the closure is gone when then() returns
+                if (wasFinished) { if (liveClosures > closuresBefore) oracleFail("C13:closure-retained-by-late-then", history); else oraclePass()++; }
+            }
         } else if (w == "finish") {
             int v; is >> v;
             if (refs() > 0 && !finished) {
                 finished = true; finishedWith = v;
                 bool destroyedAtFinish = pendingCtx != 0 && destroyed.count(pendingCtx);
                 // finish needs a promise: promises are dropped last, so one exists
-                if constexpr (std::is_void_v<T>) promises.front().finish();
-                else if constexpr (std::is_same_v<T, Val>) { if constexpr (Conv) promises.front().finish(int(v)); else promises.front().finish(Val(v)); }
-                else { if constexpr (Conv) promises.front().finish(std::make_unique<DVal>(v)); else promises.front().finish(std::make_unique<Val>(v)); }
+                if constexpr (std::is_void_v<T>) promises.front()->finish();
+                else if constexpr (std::is_same_v<T, Val>) { if constexpr (Conv) promises.front()->finish(int(v)); else promises.front()->finish(Val(v)); }
+                else { if constexpr (Conv) promises.front()->finish(std::make_unique<DVal>(v)); else promises.front()->finish(std::make_unique<Val>(v)); }
                 // property (at least once): the continuation attached last before finish runs at finish if its context is alive
                 if (pendingK >= 0 && pendingCtx != 0 && !destroyedAtFinish) {
                     if (ranCount[pendingK] != 1) oracleFail("C13:continuation-not-run", history); else oraclePass()++;
@@ -137,7 +143,7 @@ template<typename T, bool Conv = false> struct Env {
         } else if (w == "copy") {
             if (refs() > 0) {
                 copyToggle = !copyToggle;
-                if (copyToggle) tasks.push_back(aTask()); else promises.push_back(promises.front());
+                if (copyToggle) tasks.push_back(std::make_unique<QXmppTask<T>>(aTask())); else promises.push_back(std::make_unique<QXmppPromise<T>>(*promises.front()));
             }
         } else if (w == "drop") {
             if (refs() > 0) {
@@ -158,7 +164,7 @@ template<typename T, bool Conv = false> struct Env {
             fin = t.isFinished();
             if constexpr (!std::is_void_v<T>) res = t.hasResult();
         }
-        return e + "|f=" + (fin ? "1" : "0") + " r=" + (res ? "1" : "0") + " refs=" + std::to_string(refs());
+        return e + "|f=" + (fin ? "1" : "0") + " r=" + (res ? "1" : "0") + " refs=" + std::to_string(refs()) + " cl=" + std::to_string(liveClosures);
     }
     ~Env() { tasks.clear(); promises.clear(); for (auto &kv : ctx) delete kv.second; }
 };
@@ -166,7 +172,7 @@ template<typename T, bool Conv = false> struct Env {
 template<typename T, bool Conv = false> static void runSeq(const char *kind, const std::vector<std::string> &ops) {
     {
         Env<T, Conv> env;
-        env.promises.emplace_back();
+        env.promises.push_back(std::make_unique<QXmppPromise<T>>());
         corr(std::string("reset ") + kind, "ok");
         for (auto &op : ops) corr(op, env.apply(op));
     }
